@@ -163,6 +163,12 @@ def main():
             calc.__dict__["config"] = {"output": {"pressure_base": ["cij", "v"], "volume_base": ["p", {"keyword": "G_V"}]}}
             calc.write_output()
             out["write_output"] = list(sink)
+            # one rule listed several times for a base: bare keyword, alias, and an entry with fname / unit override -- every entry is written
+            del sink[:]
+            calc.__dict__["config"] = {"output": {"pressure_base": ["bm_V", {"keyword": "bulk_modulus_voigt", "fname": "my_bm_tp.txt", "unit": "rydberg / bohr^3"}, "B_V"],
+                                                  "volume_base": [{"keyword": "p", "fname": "p_custom.txt"}, "p"]}}
+            calc.write_output()
+            out["write_output_repeated_rule"] = list(sink)
         return out
 
     try:
@@ -234,6 +240,18 @@ def main():
         want_names = sorted(["c%d%ds_tp_gpa.txt" % c_(k[1:]).v for k in keys] + ["v_tp_ang3.txt", "p_tv_gpa.txt", "G_V_tv_gpa.txt"])
         if names != want_names or any((c[0] == "tp") != ("_tp_" in c[1]) for c in wo):
             fails.append("write_output dispatch: wrote %s" % names[:6])
+        wr = res["write_output_repeated_rule"]
+        got_names = sorted(set(c[1] for c in wr))
+        if got_names != sorted(["bm_V_tp_gpa.txt", "my_bm_tp.txt", "p_custom.txt", "p_tv_gpa.txt"]):
+            fails.append("a rule listed twice with a fname / unit override: files written %s" % got_names)
+        else:
+            bmv = numpy.array(ctx.uf("V2P", [numpy.asarray(vb.bulk_modulus_voigt, dtype=object), numpy.asarray(q.volume_base.pressures, dtype=object),
+                                             numpy.asarray(q.pressure_base.p_array, dtype=object)], nout=nt * ntp), dtype=object).reshape(nt, ntp)
+            for c in wr:
+                if c[1] == "my_bm_tp.txt" and not same_array(c[2], bmv):
+                    fails.append("override entry my_bm_tp.txt does not hold K_V in the requested unit")
+                if c[1] == "bm_V_tp_gpa.txt" and not same_array(c[2], bmv * U["GPa"]):
+                    fails.append("bm_V_tp_gpa.txt does not hold K_V in GPa when the rule is listed twice")
     for i, (tag, g0, nb) in enumerate(group_marks):
         ne = group_marks[i + 1][2] if i + 1 < len(group_marks) else len(fails)
         chk.obligation("%s base / keyword group %s: name, payload x unit factor, axes, aliases" % (tag, g0),
@@ -351,6 +369,24 @@ def replay(chk, cc, rw, rng, reason):
                     elif content != ref:
                         chk.violation("writer:alias:%s" % grp[0], "alias %s writes other content than %s" % (kw, grp[0]), {})
                         return
+        # a rule listed several times for one base (keyword, alias, entry with fname / unit override) through write_output
+        for f in os.listdir(tmp):
+            os.unlink(os.path.join(tmp, f))
+        calc.__dict__["config"] = {"output": {"pressure_base": ["bm_V", {"keyword": "bulk_modulus_voigt", "fname": "my_bm_tp.txt", "unit": "rydberg / bohr^3"}, "B_V"],
+                                              "volume_base": [{"keyword": "p", "fname": "p_custom.txt"}, "p"]}}
+        calc.write_output()
+        files = sorted(os.listdir(tmp))
+        want_files = sorted(["bm_V_tp_gpa.txt", "my_bm_tp.txt", "p_custom.txt", "p_tv_gpa.txt"])
+        if files != want_files:
+            chk.violation("writer:repeated-rule", "output lists naming one quantity twice (keyword + entry with fname / unit override): files written %s "
+                          "instead of %s" % (files, want_files), dict(config=calc.__dict__["config"]))
+            return
+        from qha.v2p import v2p as real_v2p
+        kv = real_v2p(numpy.asarray(vb.bulk_modulus_voigt, dtype=float), q.volume_base.pressures, q.pressure_base.p_array)
+        got = pandas.read_table(os.path.join(tmp, "my_bm_tp.txt"), sep=r"\s+", index_col=0, header=0).to_numpy()
+        if got.shape != kv[:-4, :].shape or numpy.abs(got - kv[:-4, :]).max() > 1e-10 * numpy.abs(kv).max():
+            chk.violation("writer:override-content", "file my_bm_tp.txt (unit override rydberg / bohr^3) does not hold K_V in that unit", {})
+            return
     except Exception as e:
         chk.violation("writer:raises", "output writing raises %s: %s" % (type(e).__name__, str(e)[:140]), {})
         return
